@@ -354,6 +354,17 @@ impl Oracle<'_> {
             let ok = latest.iter().any(|((_, addr), tok)| *addr == an.dst && **tok == an.token);
             if !ok {
                 let from_there = latest.keys().any(|(_, addr)| *addr == an.dst);
+                let detail = format!(
+                    "; queries to it {:?}; accepted from it {:?}; stream closed {:?}; announce at {}",
+                    sh.queries.iter().filter(|q| q.dst == an.dst).map(|q| (q.t / MS, hex(&q.tid))).collect::<Vec<_>>(),
+                    sh.accepted
+                        .iter()
+                        .filter(|a| a.src == an.dst)
+                        .map(|a| (a.t / MS, hex(&a.tid), hex(&a.id[..3]), a.token.as_ref().map(|t| hex(t))))
+                        .collect::<Vec<_>>(),
+                    spec.result.ended.map(|e| e / MS),
+                    an.t / MS
+                );
                 self.bad(
                     "C03",
                     if from_there { "announce-stale-or-foreign-token" } else { "announce-to-non-responder" },
@@ -366,7 +377,7 @@ impl Oracle<'_> {
                         } else {
                             "no accepted response of this search came from there with a token"
                         }
-                    ),
+                    ) + &detail,
                     spec,
                 );
             }
